@@ -159,11 +159,11 @@ def run(ctx, params):
                     if bool(r == 0):
                         ctx.check('C12.cat.cover', s_and(size == len(allx) + 1, len(fi) == 0, s_not(s_or(*[x == hi for x in allx])) if allx else True), info)
                     else:
-                        ctx.check('C12.cat.cover', s_and(size == len(allx), len(fi) == 1, fi[0] == hi), info)
+                        ctx.check('C12.cat.cover', s_and(size == len(allx), len(fi) == 1, fi[0] == hi) if len(fi) == 1 else False, info)
                         ctx.check('C12.cat.stab_count', s_and(len(st) == r - 1), info)
                         ctx.check('C12.cat.stab_sorted', s_and(*[st[i + 1] == st[i] + 1 for i in range(len(st) - 1)]), info)
                 else:
-                    ctx.check('C12.cat.data', s_and(len(st) == 0, len(fi) == 1, fi[0] == hi), info)
+                    ctx.check('C12.cat.data', s_and(len(st) == 0, len(fi) == 1, fi[0] == hi) if len(fi) == 1 else False, info)
         # calibration kernel
         ck = ek.indexing_kernels[-1]
         clo, chi = ck.start_index, ck.stop_index
